@@ -145,30 +145,101 @@ example : interpret .npm 429 [] = .error .invalid ∧ interpret .github 429 [] =
     interpret .npm 410 [] = .error .invalid := by
   refine ⟨?_, ?_, ?_, ?_, ?_⟩ <;> (rw [c15_status _ _ _ (by decide)]; simp)
 
-/-- a registry answer spread over pages; the adapter requests (and reads) the first page only -/
-def githubReported (pages : List Json) : Option (List Text) :=
-  match pages with
-  | [] => none
-  | p :: _ => (githubBody p).map (·.versions)
+/-! ### GitHub releases: every page is read (F-C15-1, repaired), up to a fixed bound -/
 
-/-- **full statement for paginated replies (kept visible, FALSE on the pinned tree)**: every release of
-    every page is reported -/
-def c15_github_full : Prop :=
-  ∀ (pages : List Json) (vs : List Text), githubReported pages = some vs →
-    ∀ p ∈ pages, ∀ r, githubBody p = some r → ∀ v ∈ r.versions, v ∈ vs
+/-- a well-formed paginated answer: every page but the last advertises a next page -/
+def Chained : List Page → Prop
+  | [] => True
+  | [pg] => (headerValue "link".toList pg.headers).bind nextLink = none
+  | pg :: rest => ((headerValue "link".toList pg.headers).bind nextLink).isSome = true ∧ Chained rest
 
-/-- F-C15-1: with two pages, the releases of page 2 are missing from what the adapter reports -/
-theorem c15_deviation_pagination : ¬ c15_github_full := by
-  intro h
-  have := h [.arr [.obj [("tag_name".toList, .str "v2.0.0".toList)]], .arr [.obj [("tag_name".toList, .str "v1.0.0".toList)]]]
-    ["v2.0.0".toList] (by decide) (.arr [.obj [("tag_name".toList, .str "v1.0.0".toList)]]) (by simp)
-    ⟨["v1.0.0".toList], []⟩ (by decide) "v1.0.0".toList (by simp)
-  simp at this
+/-- the releases a page advertises -/
+def pageVersions (pg : Page) : List Text := match bodyOf .github pg.body with | some r => r.versions | none => []
 
-/-- single-page replies: everything is reported -/
-theorem c15_github_partial (p : Json) (vs : List Text) (h : githubReported [p] = some vs) (r : Reply)
-    (hr : githubBody p = some r) : ∀ v ∈ r.versions, v ∈ vs := by
-  simp only [githubReported, hr, Option.map_some, Option.some.injEq] at h
-  intro v hv; rw [← h]; exact hv
+theorem githubFetchAux_all (n : Nat) (pages : List Page) (acc links : List Text)
+    (hlen : pages.length ≤ n) (hne : pages ≠ [])
+    (hgood : ∀ pg ∈ pages, statusErr .github pg.status = none ∧ (bodyOf .github pg.body).isSome = true)
+    (hch : Chained pages) :
+    (githubFetchAux n pages acc links).1 = .ok ⟨acc ++ pages.flatMap pageVersions, []⟩ := by
+  induction pages generalizing n acc links with
+  | nil => exact absurd rfl hne
+  | cons pg rest ih =>
+    cases n with
+    | zero => simp at hlen
+    | succ n =>
+      obtain ⟨hst, hbody⟩ := hgood pg (by simp)
+      cases hb : bodyOf .github pg.body with
+      | none => rw [hb] at hbody; cases hbody
+      | some r =>
+        have hpv : pageVersions pg = r.versions := by simp [pageVersions, hb]
+        unfold githubFetchAux
+        simp only [hst, hb]
+        cases rest with
+        | nil =>
+          have hnone : (headerValue "link".toList pg.headers).bind nextLink = none := hch
+          have : (if (n == 0) = true then none else (headerValue "link".toList pg.headers).bind nextLink) = none := by
+            split
+            · rfl
+            · exact hnone
+          simp only [this, List.flatMap_cons, List.flatMap_nil, List.append_nil, hpv]
+        | cons pg2 rest2 =>
+          obtain ⟨hsome, hch2⟩ := hch
+          have hn : (n == 0) = false := by
+            simp only [List.length_cons] at hlen
+            have : 1 ≤ n := by omega
+            cases n with
+            | zero => omega
+            | succ m => rfl
+          cases hl : (headerValue "link".toList pg.headers).bind nextLink with
+          | none => rw [hl] at hsome; cases hsome
+          | some target =>
+            simp only [hn, Bool.false_eq_true, if_false, hl]
+            rw [ih n (acc ++ r.versions) (links ++ [target]) (by simp only [List.length_cons] at hlen ⊢; omega) (by simp)
+              (fun q hq => hgood q (by simp [hq])) hch2]
+            simp only [List.flatMap_cons, hpv, List.append_assoc]
+
+/-- **every release of every page is reported** — for any well-formed paginated answer of up to
+    `MAX_RELEASE_PAGES` (= 20, regenerated from the source) pages -/
+theorem c15_github_all_pages (pages : List Page) (hlen : pages.length ≤ Generated.maxReleasePages) (hne : pages ≠ [])
+    (hgood : ∀ pg ∈ pages, statusErr .github pg.status = none ∧ (bodyOf .github pg.body).isSome = true)
+    (hch : Chained pages) (pg : Page) (hp : pg ∈ pages) (v : Text) (hv : v ∈ pageVersions pg) :
+    ∃ r, (githubFetch pages).1 = .ok r ∧ v ∈ r.versions := by
+  refine ⟨_, githubFetchAux_all _ pages [] [] hlen hne hgood hch, ?_⟩
+  simp only [List.nil_append, List.mem_flatMap]
+  exact ⟨pg, hp, hv⟩
+
+theorem c15_github_page_bound_value : Generated.maxReleasePages = 20 := rfl
+
+/-- **the bound (F-C15-2, recorded)**: when the page budget is used up, whatever else the registry would serve is
+    not read — a release list longer than 20 pages is cut there (a deliberate bound against endless link chains) -/
+theorem c15_github_stops_at_bound (pg : Page) (rest : List Page) (acc links : List Text) :
+    githubFetchAux 0 (pg :: rest) acc links = (.ok ⟨acc, []⟩, links) := rfl
+
+/-- never more than `MAX_RELEASE_PAGES − 1` links are followed, whatever the registry answers: the loop terminates -/
+theorem c15_github_links_bounded (n : Nat) (pages : List Page) (acc links : List Text) :
+    (githubFetchAux n pages acc links).2.length ≤ links.length + (n - 1) := by
+  induction n generalizing pages acc links with
+  | zero => cases pages <;> simp [githubFetchAux]
+  | succ n ih =>
+    cases pages with
+    | nil => simp [githubFetchAux]
+    | cons pg rest =>
+      unfold githubFetchAux
+      cases statusErr .github pg.status with
+      | some e => simp
+      | none =>
+        simp only
+        cases bodyOf .github pg.body with
+        | none => simp
+        | some r =>
+          simp only
+          split
+          · rename_i target hq
+            have := ih rest (acc ++ r.versions) (links ++ [target])
+            have hn : n ≠ 0 := by
+              intro h0; subst h0; simp at hq
+            simp only [List.length_append, List.length_singleton] at this
+            omega
+          · simp
 
 end Vlsp.C15
